@@ -562,6 +562,11 @@ func Run(c *gen.Ctx) error {
 	meta.Rule = "direct calls: MarshalString/MarshalID on every ASCII special, boundary code points, a malformed-sequence table (overlong, surrogate, >10FFFF, truncated, stray continuation), every 3rd (quick) or every (thorough) lead byte x 11 second bytes, random byte/rune mixes; every integer marshaler at width boundaries +-2 then jsonDecode(UseNumber)+its unmarshaler; all 8 integer unmarshalers x 110 dynamic values (numeric-looking strings, typed ints at boundaries, floats, bool, nil, containers); random FieldSet/Array trees validated by encoding/json; library-formatted scalars (FloatContext incl. NaN/Inf and random bit patterns, Time, Duration, UUID, Any, Map, Omittable) validated and round-tripped in Go. distinct_nontrivial = distinct non-empty string inputs."
 	meta.Samples = []any{strDescr[40], intDescr[3], unmSample, treeDescr[0], libDescr[len(libDescr)-1]}
 	meta.Distribution = map[string]any{"string_classes": strClasses, "int_cases": ints.Len(), "unmarshal_outcomes": unmOutcomes, "tree_cases": tree.Len(), "library_scalars": libKinds}
+	if nh, err := heldResponses(meta); err != nil {
+		return err
+	} else {
+		meta.Notes = append(meta.Notes, fmt.Sprintf("%d operations with and without @defer on generated servers whose responses are kept until the operation is over and looked at again: each still holds the bytes it was handed over with, valid JSON", nh))
+	}
 	return meta.Write(c.OutDir)
 }
 
